@@ -110,21 +110,47 @@ Definition inv_succeeded_b (s : st) : bool :=
                                | Some FBuilt | Some FVolatile => true
                                | _ => false end) (file_sinks_of_step (sl r) s)) (steps s).
 
+(* I4a: an output edge step -> file whose sink still has a creator points to a product of that
+   step, in an OUTPUT or VOLATILE state (an edge survives a detach, which clears the creator; a
+   re-creation of the file cuts all its sources) *)
+Definition inv_outedge_b (s : st) : bool :=
+  forallb (fun d => match dsrc d, dsnk d with
+                    | (KStep, l), (KFile, f) =>
+                      match creator_of (KFile, f) s with
+                      | None => true
+                      | Some c => key_eqb c (KStep, l) &&
+                                  match fstate_of f s with
+                                  | Some FPlanned | Some FBuilt | Some FOutdated | Some FVolatile => true
+                                  | _ => false end
+                      end
+                    | _, _ => true
+                    end) (deps s).
+(* I4b: a product file of a SUCCEEDED step is not PLANNED or OUTDATED (detached or not) *)
+Definition inv_succ_products_b (s : st) : bool :=
+  forallb (fun n => match nk n, ncre n with
+                    | (KFile, f), Some (KStep, l) =>
+                      negb (match sstate_of l s with Some SSucceeded => true | _ => false end) ||
+                      negb (match fstate_of f s with Some FPlanned | Some FOutdated => true | _ => false end)
+                    | _, _ => true
+                    end) (nodes s).
+
 (* an output edge step -> file is only present while the step is the file's creator, or the
    file has been taken over / re-created (then the edge was cut); a file's producers *)
 Definition inv_b (s : st) : bool :=
   inv_nodes_b s && inv_local_b s && inv_reach_b s && inv_rows_b s && inv_deps_b s &&
-  inv_acyclic_b s && inv_undeclared_b s && inv_fhash_b s && inv_step_b s && inv_nocreator_b s.
+  inv_acyclic_b s && inv_undeclared_b s && inv_fhash_b s && inv_step_b s && inv_nocreator_b s &&
+  inv_outedge_b s.
 
 (* everything except "holding > 0 -> RUNNING": holds for every operation sequence whatsoever *)
 Definition inv_core_b (s : st) : bool :=
   inv_nodes_b s && inv_local_b s && inv_reach_b s && inv_rows_b s && inv_deps_b s &&
-  inv_acyclic_b s && inv_undeclared_b s && inv_fhash_b s && inv_deferred_b s && inv_nocreator_b s.
+  inv_acyclic_b s && inv_undeclared_b s && inv_fhash_b s && inv_deferred_b s && inv_nocreator_b s &&
+  inv_outedge_b s.
 
 Definition inv_report (s : st) : list bool :=
   [inv_nodes_b s; inv_local_b s; inv_reach_b s; inv_rows_b s; inv_deps_b s; inv_acyclic_b s;
    inv_undeclared_b s; inv_fhash_b s; inv_step_b s; inv_running_nohash_b s; inv_succeeded_b s;
-   inv_nocreator_b s].
+   inv_nocreator_b s; inv_outedge_b s; inv_succ_products_b s].
 
 (* The one protocol fact inv_b depends on: hold() is only ever requested by a step whose job is in
    flight (DirectorHandler.hold resolves the job through Scheduler.get_job_step), i.e. a RUNNING
